@@ -43,6 +43,12 @@ func scenarioC18(rc *RunCtx) *Violation {
 			m.Feat |= FeatLegal
 		}
 	}
+	if g.n(8) == 0 {
+		// a style-sheet site next to the modules: CSS entry points, @layer lists, sheets imported twice
+		o.Bundle = true
+		p.AddCSSSite(g)
+		rc.Probe("profile_css_site")
+	}
 	key := make([]byte, 12)
 	for i := range key {
 		key[i] = byte(g.n(256))
